@@ -1068,6 +1068,14 @@ class C12(Check):
                                               {"op": "rx", "port": 1, "data": fr}, {"op": "rx", "port": 3, "data": fr}, {"op": "rx", "port": 1, "data": fr, "nopd": True},
                                               {"op": "setconfig", "flags": 0, "miss": 64}, {"op": "rx", "port": 1, "data": fr}, stats],
                                       "why": "fragment %s proto %d mode %d" % (name, proto, mode), "canon": True})
+        # (u2) the witness of the open finding C12-3, on every run: the FIRST fragment of a UDP / TCP datagram whose L4 length runs past
+        #      the fragment, forwarded unchanged by a plain output (packet_out and flow entry)
+        big = udp_seg(ips, ipd, 1000, 2000, bytes(range(48)))
+        for seg, proto in ((big[:24], 17), (tcp_seg(ips, ipd, 1000, 80, 1, 2, 0, 0x18, 100, 0, b"", bytes(range(44)))[:40], 6)):
+            fr = ethh(ip_packet(ips, ipd, proto, seg, flags=1, frag=0))
+            cases.append({"ops": [po(fr, [out1(2)])], "why": "first fragment proto %d plain output" % proto, "canon": True})
+            cases.append({"ops": [{"op": "flow", "in_port": 1, "acts": [out1(3)]}, {"op": "rx", "port": 1, "data": fr}],
+                          "why": "first fragment proto %d flow entry" % proto, "canon": True})
         # (s) a flow_mod whose actions include a type without handler (C13-4: refused with BAD_ACTION/BAD_TYPE and not installed; without the
         #     pre-check: installed, processing stops at that action) — first / middle / last, then traffic, then a good entry behind it
         ven = {"a": "vendor", "v": 7}
